@@ -39,3 +39,51 @@ let concretize_link_script (s : script) : string list =
 
 let () = register "link" run_link_engine; register_concretizer "link" concretize_link_script
 
+(* engines layer, treader, twriter over the extracted model *)
+
+let bcast_text = function
+  | None -> "none" | Some BOptional -> "opt" | Some BMandatory -> "mand" | Some BNotRequired -> "notreq"
+
+let role s = match cfg_str s "role" "outstation" with
+  | "master" -> Master | "outstation" -> Outstation | _ -> failwith "bad role"
+
+let lcfg_of s = { l_type = role s; l_self = (cfg_int s "self" 0 <> 0); l_addr = n_of_int (cfg_int s "addr" 1024) }
+
+let feeds_of (s : script) =
+  let feeds = List.filter_map (function ["feed"; h] -> Some (unhex h) | _ -> None) s.ops in
+  if List.length feeds <> List.length s.ops then failwith "only feed ops are modelled";
+  feeds
+
+let run_layer_engine (s : script) : string list =
+  let obs = run_layer (error_mode s) (read_mode s) (nat_of_int (cfg_int s "frag" 2048)) (lcfg_of s) (feeds_of s) in
+  List.map (function
+    | LTx b -> "tx " ^ hex b
+    | LInfo (i, p) -> Printf.sprintf "info %d %s %s %s" (int_of_n i.fi_source) (bcast_text i.fi_broadcast)
+                        (match i.fi_type with FData -> "data" | FLinkStatusRequest -> "lsreq" | FLinkStatusResponse -> "lsresp") (hex p)
+    | LErr e -> "err " ^ rerr_text e
+    | LOverflow -> "overflow"
+    | LStall -> "model-out-of-fuel") obs @ ["end"]
+
+let run_treader_engine (s : script) : string list =
+  let obs = run_treader (error_mode s) (read_mode s) (nat_of_int (cfg_int s "frag" 2048)) (lcfg_of s) (feeds_of s) in
+  List.map (function
+    | TTx b -> "tx " ^ hex b
+    | TFrag (fi, d) -> Printf.sprintf "frag %d %d %s %s" (int_of_n fi.fg_id) (int_of_n fi.fg_source) (bcast_text fi.fg_broadcast) (hex d)
+    | TLinkMsg (src, req) -> Printf.sprintf "llmsg %d %s" (int_of_n src) (if req then "req" else "resp")
+    | TErr e -> "err " ^ rerr_text e
+    | TOverflow -> "overflow"
+    | TStall -> "model-out-of-fuel") obs @ ["end"]
+
+let run_twriter_engine (s : script) : string list =
+  let ops = List.map (function
+    | ["write"; d; h] -> WWrite (n_of_int (int_of_string d), unhex h)
+    | ["lsreq"; d] -> WLinkStatus (n_of_int (int_of_string d))
+    | ["reset"] -> WReset
+    | _ -> failwith "bad twriter op") s.ops in
+  let obs = run_twriter { w_type = role s; w_addr = n_of_int (cfg_int s "addr" 1024) } N0 ops in
+  List.map (function Some b -> "tx " ^ hex b | None -> "reset") obs @ ["end"]
+
+let () =
+  register "layer" run_layer_engine; register_concretizer "layer" concretize_link_script;
+  register "treader" run_treader_engine; register_concretizer "treader" concretize_link_script;
+  register "twriter" run_twriter_engine
